@@ -397,6 +397,47 @@ func genC17(c *Ctx) {
 		out := c.Emit(teiLine("tei", depth, joinStream(cmds, !c.R.Chance(1, 20))))
 		countTEI(c, out)
 	}
+	// move lists that pass THROUGH a finished game and go on (Position.Move plays on; the declared position is the list's
+	// end): a later capture can take the road apart again, so `go` must answer for the live position
+	{
+		cmds := []string{"teinewgame 3", "position startpos moves a3 a1 b1 a2 c1 a2-", "go", "isready"}
+		c.Count("tei.past-end.fixed." + clip(c.Emit(teiLine("tei", 1, joinStream(cmds, true))), 3))
+	}
+	n = c.Scale(400, 20000)
+	for i := 0; i < n; i++ {
+		size := 3 + c.R.Intn(2)
+		p := tak.New(tak.Config{Size: size})
+		var mv []string
+		wasOver, live := false, false
+		ln := 4 + c.R.Intn(14)
+		for len(mv) < ln {
+			ms := p.AllMoves(nil)
+			if len(ms) == 0 {
+				break
+			}
+			m := ms[c.R.Intn(len(ms))]
+			next, err := p.Move(m)
+			if err != nil {
+				continue
+			}
+			p = next
+			mv = append(mv, ptn.FormatMove(m))
+			over, _ := p.GameOver()
+			if over {
+				wasOver = true
+			}
+			live = wasOver && !over
+		}
+		cmds := []string{"teinewgame " + strconv.Itoa(size), "position startpos moves " + strings.Join(mv, " "), "go", "isready"}
+		out := c.Emit(teiLine("tei", 1, joinStream(cmds, true)))
+		k := "never-over"
+		if live {
+			k = "over-then-live"
+		} else if wasOver {
+			k = "over"
+		}
+		c.Count("tei.past-end." + k + "." + clip(out, 3))
+	}
 	// protocol lines far longer than any I/O buffer: a legal game of ~1300 plies (both sides shuffle one stone) in ONE
 	// `position ... moves` line (> 4096 bytes), then `go`: the position must be installed and answered like any other
 	if c.Shard < 4 {
